@@ -234,7 +234,7 @@ PROPS = {
     'C04': dict(
         title='Zinc text conforms to the Project Haystack grammar in both directions',
         verus=[('u_zparse', [r'^parse_str_escape$', r'^parse_str_unicode_escape$', r'^parse_str$', r'^Lexer::read$', r'^parse_literal$', r'^parse_id$', r'^lemma_lit_run_bytes$', r'^parse_unit$', r'^is_unit_char$', r'^parse_uri$']),
-               ('u_enc', [r'^write_quoted_str$', r'^write_str$', r'::to_zinc$', r'::zinc_encode$', r'^list_to_zinc$', r'^write_dict_tags$', r'^Column::to_zinc$', r'^Dict::to_zinc$', r'^Grid::to_zinc$', r'^Value::to_zinc$', r'^lemma_ver_line$', r'^enc_(value|items|tag|tags|meta|col|cols|cells|rows|grid)$', r'^grid_head$', r'^dict_find$'])],
+               ('u_enc', [r'^write_quoted_str$', r'^write_str$', r'::to_zinc$', r'::zinc_encode$', r'^list_to_zinc$', r'^write_dict_tags$', r'^Column::to_zinc$', r'^Dict::to_zinc$', r'^Grid::to_zinc$', r'^Value::to_zinc$', r'^lemma_ver_line$', r'^enc_(value|items|tag|tags|meta|col|cols|cells|rows|grid)$', r'^grid_head$', r'^grid_mid$', r'^dict_find$'])],
         kani=[dict(harness='k_scanner_classes', klass='complete', schema=['u8'], family=None, target='Scanner::is_* byte classes'),
               dict(harness='k_unit_char_class', klass='complete', schema=['u8'], family=None, target='zinc number::is_unit_char'),
               dict(harness='k_u8_classes', klass='complete', schema=['u8'], family=None, target='u8::is_ascii_*')],
@@ -262,7 +262,7 @@ PROPS = {
     ),
     'C10': dict(
         title='Encoders never panic on any constructible value',
-        verus=[('u_enc', [r'::to_zinc$', r'::to_zinc_body$', r'::zinc_encode$', r'^list_to_zinc$', r'^write_dict_tags$', r'^write_str$', r'^write_quoted_str$', r'^Error::<From<std::io::Error>>::from$', r'^InnerGrid::']),
+        verus=[('u_enc', [r'::to_zinc$', r'::zinc_encode$', r'^list_to_zinc$', r'^write_dict_tags$', r'^write_str$', r'^write_quoted_str$', r'^Error::<From<std::io::Error>>::from$', r'^InnerGrid::']),
                ('u_jenc', [r'::serialize$'])],
         kani=[dict(harness='k_json_number_exact', klass='complete', schema=['f64'], family='json-number', target='<Number as Serialize>::serialize (panic-free over all f64)'),
               dict(harness='k_zinc_keywords', klass='complete', schema=['u8'], family=None, target='to_zinc of Marker/Remove/Na/Bool')],
@@ -273,7 +273,7 @@ PROPS = {
                     '(incl. zero columns with rows, zero rows, nested grids), Column, write_dict_tags and the recursive Value dispatcher return Ok and cannot panic '
                     'for any field values (every String ranges over all strings incl. empty and non-ASCII); string slicing, where it occurs, '
                     'carries std\'s panic condition as a precondition (rule R13). The Hayson Serialize impls of every kind except Number are proved panic-free on their real bodies (u_jenc). Kani: Number::serialize (Hayson) is panic-free over all f64.'),
-        not_decided=('XStr::to_zinc is proved panic-free under the name to_zinc_body (its text is an uninterpreted function of the value); the collection writers '
+        not_decided=('the collection writers '
                      'are proved on index loops obtained from their enumerate() loops by rule R19 (trusted: Enumerate over a slice iterator yields (i, &v[i])); Display/to_string wrappers; the serializer behind the Serialize impls (serde_json); core::fmt itself (assumed not to fail or panic for the literals used); recursion depth.'),
     ),
     'C17': dict(
@@ -323,8 +323,8 @@ PROPS = {
         title='Zinc encode -> decode returns the original value',
         verus=[('u_zparse', [r'^lemma_keyword_roundtrip$', r'^Lexer::read$', r'^parse_literal$', r'^parse_str_escape$', r'^lemma_lit_run_bytes$',
                              r'^parse_str$', r'^parse_str_unicode_escape$', r'^lemma_str_body_plain$', r'^lemma_hex4_value$', r'^lemma_str_body_char$',
-                             r'^lemma_str_body_enc$', r'^lemma_str_roundtrip$', r'^parse_ref$', r'^lemma_ref_run_prefix$', r'^lemma_ref_roundtrip$', r'^parse_uri$', r'^lemma_uri_body_plain$', r'^lemma_uri_body_char$', r'^lemma_uri_body_enc$', r'^lemma_uri_roundtrip$', r'^parse_symbol$', r'^lemma_symbol_roundtrip$']),
-               ('u_enc', [r'^write_quoted_str$', r'^Str::to_zinc$', r'^Ref::to_zinc$', r'^Uri::to_zinc$', r'^Symbol::to_zinc$', r'^lemma_str_escape_inverse$', r'^Marker::to_zinc$', r'^Remove::to_zinc$', r'^Na::to_zinc$', r'^Bool::to_zinc$', r'^Number::to_zinc$'])],
+                             r'^lemma_str_body_enc$', r'^lemma_str_roundtrip$', r'^parse_ref$', r'^lemma_ref_run_prefix$', r'^lemma_ref_roundtrip$', r'^parse_uri$', r'^lemma_uri_body_plain$', r'^lemma_uri_body_char$', r'^lemma_uri_body_enc$', r'^lemma_uri_roundtrip$', r'^parse_symbol$', r'^lemma_symbol_roundtrip$', r'^parse_xstr_body$', r'^lemma_lit_run_prefix$', r'^lemma_xstr_roundtrip$']),
+               ('u_enc', [r'^write_quoted_str$', r'^Str::to_zinc$', r'^Ref::to_zinc$', r'^Uri::to_zinc$', r'^Symbol::to_zinc$', r'^XStr::to_zinc$', r'^lemma_str_escape_inverse$', r'^Marker::to_zinc$', r'^Remove::to_zinc$', r'^Na::to_zinc$', r'^Bool::to_zinc$', r'^Number::to_zinc$'])],
         kani=[dict(harness='k_zinc_keywords', klass='complete', schema=['u8'], family=None, target='to_zinc of Marker/Remove/Na/Bool')],
         witness='enum:zinc-roundtrip-scalars',
         design_ref='DESIGN.md section 4, C01',
@@ -341,10 +341,13 @@ PROPS = {
                     'for every Uri without C0 control characters (which the writer drops; the property excludes them). '
                     '(1d) Symbols: ^ + value on the writer side, ^ + the maximal run of ref bytes starting with a lower-case letter on the reader side, '
                     'lemma_symbol_roundtrip for every such symbol. '
+                    '(1e) XStr: XStr::to_zinc emits the type with its first character upper-cased, then ("value") with the value as a Zinc string; '
+                    'parse_literal reads the maximal run of [A-Za-z0-9_] as the type and parse_xstr_body the quoted value; lemma_xstr_roundtrip '
+                    'composes them for every capitalised identifier type and every value string. '
                     '(2) Keyword-valued scalars (Marker, Remove, NA, true, false; Null on the reader side): the real writers emit M R NA T F '
                     '(Verus after rule R18, and Kani), Lexer::read maps a capitalised literal through the grammar\'s keyword table, and '
                     'lemma_keyword_roundtrip composes them.'),
-        not_decided=('XStr (its value reuses the proved quoted-string writer and reader; the Type( ) framing is proved panic-free only); '
+        not_decided=('that the lexer hands the literal it has just read to parse_xstr_body (Lexer::read is proved total and for its keyword/string/ref clauses only); '
                      'the Uri reader clause, like the Ref one, assumes an empty peek stash at the start of the token; '
                      'the Ref reader clause assumes an empty peek stash at the start of the token (true after every token the lexer produces, not proved); Number, Coord, Date, Time, DateTime (core::fmt / chrono text); List, Dict and Grid '
                      'layout on the reader side; nesting. Assumed: the UTF-8 axioms of strspec.vt, the two core::fmt helper contracts used by '
